@@ -3,7 +3,7 @@
 # build + suite pass with it, demo fails with it. One verdict line per seed. usage: seedverify.sh [seed ...]
 cd /verif
 seeds=${@:-$(ls seeded)}
-SV=/tmp/svv
+SV=${SV:-/tmp/svv}
 for s in $seeds; do
   D=/verif/seeded/$s
   git -C /repo worktree remove --force $SV 2>/dev/null; rm -rf $SV
